@@ -20,7 +20,7 @@ ASSUMPTIONS = [
     "re-entering a tag whose block has already ended is not generated (the statement is silent about it)",
 ]
 
-BAD = ["set", "dict", "object", "bytes", "complex"]
+BAD = ["set", "dict", "object", "bytes", "complex", "widget"]
 
 
 class Boom(Exception):
@@ -32,7 +32,7 @@ def values():
         st.one_of(
             st.builds(lambda s: ["str", s], st.one_of(gen.safe_text(0, 3), st.sampled_from(["", "<b>", "a&b"]))),
             st.builds(lambda v: ["num", v], st.one_of(st.integers(-3, 30), st.sampled_from([0, 1.5, -0.0]))),
-            st.sampled_from([["none"], ["ellipsis"], ["repr", "<u>r</u>"], ["html", "<i>h</i>"], ["tag", "span"], ["tag", "div"], ["tfy"], ["dep"]]),
+            st.sampled_from([["none"], ["ellipsis"], ["repr", "<u>r</u>"], ["html", "<i>h</i>"], ["tag", "span"], ["tag", "div"], ["tfy"], ["dep"], ["widget", "<w>1</w>"], ["meta"]]),
             st.builds(lambda a, b: ["list", a, b], st.sampled_from(["list", "tuple", "taglist"]), st.lists(st.sampled_from([["str", "x"], ["num", 2], ["none"], ["tag", "b"], ["html", "<q>"]]), max_size=3)),
         )
     )
@@ -53,7 +53,7 @@ def block(depth):
 
 
 def case_strategy():
-    return st.fixed_dictionaries({"prog": block(3)})
+    return st.fixed_dictionaries({"prog": block(3), "default_hook": st.sampled_from([False, False, False, True])})
 
 
 def build_value(v):
@@ -78,6 +78,10 @@ def build_value(v):
         return Tfy({"k": "text", "s": "t"})
     if k == "dep":
         return h.HTMLDependency("d", "1.0")
+    if k == "meta":
+        return h.MetadataNode()
+    if k == "widget":
+        return _widget_class(True)(v[1])
     if k == "list":
         items = [build_value(x) for x in v[2]]
         if v[1] == "tuple":
@@ -88,8 +92,23 @@ def build_value(v):
     raise ValueError(v)
 
 
+def _widget_class(renderable: bool):
+    """Two *different* classes with the same module and qualified name (a class redefined in a notebook cell):
+    one is self-rendering, the other is an unsupported object."""
+    if renderable:
+        cls = type("Widget", (), {"__init__": lambda self, s: setattr(self, "s", s), "_repr_html_": lambda self: self.s})
+    else:
+        cls = type("Widget", (), {})
+    cls.__module__ = "hv.checks.c17"
+    cls.__qualname__ = "Widget"
+    return cls
+
+
 def mk_bad(t, nested):
-    x = {"set": {1}, "dict": {"a": 1}, "object": object(), "bytes": b"x", "complex": 2j}[t]
+    if t == "widget":
+        x = _widget_class(False)()
+    else:
+        x = {"set": {1}, "dict": {"a": 1}, "object": object(), "bytes": b"x", "complex": 2j}[t]
     return ["ok", x] if nested else x
 
 
@@ -99,6 +118,8 @@ def model_nodes(obj, out):
 
     if isinstance(obj, (h.Tag, h.TagList)) or (hasattr(obj, "tagify") and not isinstance(obj, (list, tuple))):
         _flat([obj], out)
+    elif isinstance(obj, h.MetadataNode):
+        out.append(("obj", obj))  # metadata nodes / dependencies are kept as they are
     elif hasattr(obj, "_repr_html_"):
         out.append(("html", obj._repr_html_()))
     elif obj is None or obj is ...:
@@ -240,20 +261,38 @@ class Interp:
 
 
 def body(case, note):
+    import builtins
+    import contextlib
+    import io
+
     it = Interp()
     saved = sys.displayhook
-    base_hook = it.base  # one bound-method object, so that identity comparisons are meaningful
+    default = bool(case.get("default_hook"))
+    # either a recording hook, or the interpreter's own default hook (which prints repr(value) and binds builtins._)
+    base_hook = sys.__displayhook__ if default else it.base  # one object, so that identity comparisons are meaningful
     sys.displayhook = base_hook
+    buf = io.StringIO()
+    saved_underscore = getattr(builtins, "_", None)
     try:
-        try:
-            it.run(case["prog"])
-        except Boom:
-            pass
+        with contextlib.redirect_stdout(buf) if default else contextlib.nullcontext():
+            try:
+                it.run(case["prog"])
+            except Boom:
+                pass
         check(sys.displayhook is base_hook, "at program end the display hook is not the outermost hook")
         check(not it.active, "harness: active stack not empty")
-        check(len(it.base_seen) == len(it.base_model) and all(a is b for a, b in zip(it.base_seen, it.base_model)), "values received by the outermost hook differ from the model (each tag exactly once, on exit, in order)", [type(x).__name__ for x in it.base_model], [type(x).__name__ for x in it.base_seen])
+        if default:
+            shown = [v for v in it.base_model if v is not None]
+            with contextlib.redirect_stdout(io.StringIO()):
+                want = "".join(repr(v) + "\n" for v in shown)
+            check(buf.getvalue() == want, "the interpreter's default hook did not receive exactly the modelled values (each tag once, on exit, in order)", want[:600], buf.getvalue()[:600])
+            if shown:
+                check(getattr(builtins, "_", None) is shown[-1], "builtins._ is not the last value handed to the default hook")
+        else:
+            check(len(it.base_seen) == len(it.base_model) and all(a is b for a, b in zip(it.base_seen, it.base_model)), "values received by the outermost hook differ from the model (each tag exactly once, on exit, in order)", [type(x).__name__ for x in it.base_model], [type(x).__name__ for x in it.base_seen])
     finally:
         sys.displayhook = saved
+        builtins._ = saved_underscore
     s = it.stats
     note(
         s["max_depth"] >= 2 and s["exc_crossed"] >= 1,
@@ -262,6 +301,7 @@ def body(case, note):
         "reentry" if s["reentry"] else "",
         "invalid-display-in-block" if s["bad"] else "",
         "blocks" if s["blocks"] else "no-blocks",
+        "default-hook" if default else "",
     )
 
 
@@ -272,5 +312,5 @@ RULE = (
 )
 
 CLAUSES = [
-    Clause("programs", body, strategy=case_strategy, quick=600, thorough=10000, shards_quick=4, required=("exception-crossed-block", "reentry", "invalid-display-in-block", "depth>=3"), rule="see RULE"),
+    Clause("programs", body, strategy=case_strategy, quick=600, thorough=10000, shards_quick=4, required=("exception-crossed-block", "reentry", "invalid-display-in-block", "depth>=3", "default-hook"), rule="see RULE"),
 ]
